@@ -67,7 +67,11 @@ def gen_project(rng, wildcard=0.0, missing_import=0.0):
                 scope[n_] = p
                 return n_
             if p != pk and n_ not in scope:
-                if wildcard and p in PKGS and rng.random() < wildcard and (pk, n_) not in decl:       # (a class of the own package shadows on-demand imports)
+                wild_pkgs = [i[:-2] for i in imports if i.endswith(".*")]
+                # (a class of the own package shadows on-demand imports; a name that two on-demand packages declare is ambiguous)
+                unambiguous = (pk, n_) not in decl and not any((w, n_) in decl for w in wild_pkgs if w != p) and \
+                    not any((p, other) in decl for other, op in scope.items() if op in wild_pkgs and op != p and (op + "." + other) not in imports)
+                if wildcard and p in PKGS and rng.random() < wildcard and unambiguous:
                     # an on-demand import of a project package: the type is visible, but only through `import p.*;`
                     if p + ".*" not in imports:
                         imports.append(p + ".*")
@@ -119,6 +123,10 @@ def gen_project(rng, wildcard=0.0, missing_import=0.0):
                     pnames.add(pn)
                     ptype = t + rng.choice(["", "", "<String>"]) if t in ("List", "ArrayList") else t
                     params.append({"type": ptype, "name": pn, "decl": t if ptype == t else None})
+                    if rng.random() < 0.08:
+                        # a C-style array declarator: `String args[]` - the parameter's NAME is still args
+                        params[-1]["dims"] = True
+                        params[-1]["decl"] = None
             body = None
             env = dict(field_types)                 # java scoping: params and locals shadow fields
             env[SCOPED] = set(p["name"] for p in params)     # names a local of this method may not redeclare
@@ -161,6 +169,10 @@ def gen_project(rng, wildcard=0.0, missing_import=0.0):
             class_annos.append({"name": "Table", "args": [("name", '"t_x"')]})
         if rng.random() < 0.1:
             class_annos.append({"name": "SuppressWarnings", "args": '"unchecked"'})
+        if kind == "interface" and rng.random() < 0.25:
+            # a client interface with a type-level mapping (Feign style): no controller, contributes no entry - and its base path
+            # must not reach the next file
+            class_annos.append({"name": "RequestMapping", "args": rng.choice(['"/remote%d"' % len(units), [("value", '"/rv%d"' % len(units))]])})
         if kind == "class" and rng.random() < 0.3:
             # a Spring controller: the API scan of C07's runs then has entries to compare
             class_annos.append({"name": rng.choice(["RestController", "Controller"]), "args": None})
@@ -260,16 +272,24 @@ def gen_stmt(rng, env, use, others, cls, depth):
             if rng.random() < 0.4:
                 return ("expr", ("assign", v, gen_expr_call(rng, env, use, others, cls, 1)))     # v = a.b();
             return ("expr", ("assign", v, ("new", env[v], [])))      # type-correct: the declared type itself
-    if r < 0.93:
+    if r < 0.92:
         return ("expr", ("call", ("name", "list"), "forEach", [("lambda", ["e"], gen_expr_call(rng, env, use, others, cls, 1))]))
     if r < 0.95:
         # a lambda with explicitly typed parameters: calls on them resolve against the declared type like calls on any parameter
         t = use(pick_type(rng, others, allow_prim=False))
         if t:
-            v = "lp%d" % rng.randrange(1000)
-            if v not in env:
+            # (the name is either fresh or one of the usual variable names - which a LATER local of the method may then reuse)
+            v = "lp%d" % rng.randrange(1000) if rng.random() < 0.5 else rng.choice(VARS)
+            if v not in env and v not in env[SCOPED]:
                 ps = [(t, v)] + ([("String", "k%d" % rng.randrange(100))] if rng.random() < 0.3 else [])
-                return ("expr", ("call", ("name", "list"), "forEach", [("lambda", ps, ("call", ("name", v), rng.choice(METHODS), [], {"recvVar": v, "recvType": t}))]))
+                lam = ("expr", ("call", ("name", "list"), "forEach", [("lambda", ps, ("call", ("name", v), rng.choice(METHODS), [], {"recvVar": v, "recvType": t}))]))
+                t2 = use(pick_type(rng, others, allow_prim=False))
+                if t2 and t2 != t and depth < 2 and rng.random() < 0.5:
+                    # ... and, once the lambda has ended, a local variable of the same name and another type: a call on it is a
+                    # call on the local
+                    return ("if", ("name", "true"), 1, [lam, ("local", t2, v, ("new", t2, [])),
+                                                        ("expr", ("call", ("name", v), rng.choice(METHODS), [], {"recvVar": v, "recvType": t2}))], None)
+                return lam
     t = use(pick_type(rng, others, allow_prim=False))
     if t:
         return ("expr", ("call", ("name", "list"), "map", [("mref", ("name", t), rng.choice(METHODS))]))
